@@ -281,7 +281,7 @@ func main() {
 	} else {
 		os.MkdirAll(dir, 0o755)
 	}
-	timeout := 10
+	timeout := 15
 	if *tier == "thorough" {
 		timeout = 60
 	}
@@ -546,7 +546,11 @@ func main() {
 		os.WriteFile(filepath.Join(*verif, "evidence", *property+".json"), data, 0o644)
 	}
 	if *verbose {
-		fmt.Printf("timing: discharge %.1fs wall\n", tDischarge)
+		st := 0.0
+		for _, j := range jobs {
+			st += j.o.SliceTime
+		}
+		fmt.Printf("timing: discharge %.1fs wall, slicing %.1fs cpu\n", tDischarge, st)
 	}
 	fmt.Printf("property=%s tier=%s functions=%d obligations=%d discharged=%d violations=%d known=%d wall=%.1fs (load %.1fs, encode %.1fs, solver %.1fs cpu)\n",
 		*property, *tier, len(results), total, discharged, violations, len(knownHit), wall, tLoad, tEnc, solverTime)
